@@ -384,6 +384,7 @@ func scenarios() []scenario {
 		{"query-park", []SOp{add("a/b", 1), qry("a/b"), del("a/b"), add("a/c", 2), hold("a/b", 9)}, []int{0, 0}, 80, 2000},
 		{"query-park-2", []SOp{add("a/b", 1), add("c", 2), qry("a/*"), add("a/d/e", 3), del("*"), get("c")}, []int{0, 0, 1, 1}, 80, 3000},
 		{"query-park-add", []SOp{add("a/b", 1), qry("a/b"), add("a/b", 7), get("a/b"), del("a"), add("a/b", 8)}, []int{0, 0}, 80, 2000},
+		{"query-multi", []SOp{add("a/b", 1), add("a/c", 2), add("a/d/e", 3), qry("a/*"), add("a/f", 4), del("a/c"), qry("")}, []int{0, 0, 1, 1, 2, 2, 2}, 80, 2000},
 		{"two-holds-get", []SOp{add("a/b", 1), hold("a/b", 5), get("a/b"), del("a"), hold("a/b", 6)}, []int{0, 0}, 60, 2000},
 		{"hold-get-add", []SOp{add("a/b", 1), add("a/c", 2), hold("a/b", 5), get("a/b"), add("a/b", 7), get("a/c"), del("a/b")}, []int{0, 0, 1, 1}, 80, 3000},
 		{"two-deleters", []SOp{add("a/b", 1), add("a/c/d", 2), del("a/b"), del("a"), add("a/c/e", 3)}, []int{0, 0}, 80, 3000},
@@ -596,9 +597,23 @@ func main() {
 		meta.Extra["schedules:"+sc.name] = n
 		total += n
 	}
+	// the same schedule many times: after its last controller action a deleter,
+	// a writer queued behind it and a blocked adder run truly concurrently, so
+	// every repetition samples one real interleaving of that settle phase
+	{
+		prog := []SOp{{K: "add", P: P("d"), V: 9}, {K: "add", P: P("a/b/d"), V: 2}, {K: "add", P: P("a/b/c"), V: 4}, {K: "add", P: P("a"), V: 8}, {K: "delete", P: P("*")}}
+		sched := []int{0, 1, 1, 2, 3, 4, 0, 2}
+		n := 250
+		if o.Thorough() {
+			n = 3000
+		}
+		for i := 0; i < n; i++ {
+			e.addSched("S:settle-stress", prog, sched)
+		}
+	}
 	nprog, nwalk := 150, 5
 	if o.Thorough() {
-		nprog, nwalk = 1500, 8
+		nprog, nwalk = 1200, 8
 	}
 	for i := 0; i < nprog; i++ {
 		rr := r.Fork()
@@ -612,7 +627,7 @@ func main() {
 
 	nwl := 120
 	if o.Thorough() {
-		nwl = 1200
+		nwl = 900
 	}
 	var wls []Workload
 	for i := 0; i < nwl; i++ {
